@@ -22,12 +22,9 @@ Definition bytes := list N.
 Inductive err_kind := ParseError | NotImplemented | Fatal | TypeError.
 
 Inductive panic_site :=
-| PSPopUnwrap        (* parse_query: ast.pop().unwrap() on an empty statement list *)
-| PSLimitUnwrap      (* get_limit:  int.parse::<u64>().unwrap() *)
-| PSOffsetUnwrap     (* get_offset: rows.parse::<u64>().unwrap() *)
-| PSStripRange       (* strip_quotes: ident[1..len-1] with len = 1 (start > end) *)
-| PSStripBoundary    (* strip_quotes: len-1 (or 1) is not a char boundary *)
-| PSFloatUnwrap.     (* get_raw_val: num.parse::<f64>().unwrap() *)
+| PSStripBoundary    (* strip_quotes: ident[1..len-1] with an end that is not a char boundary (impossible
+                        for a valid str: both ends follow / are one-byte quote characters) *)
+| PSFloatUnwrap.     (* get_raw_val: num.parse::<f64>().unwrap() (the tokenizer's number tokens always parse) *)
 
 Inductive result (A : Type) :=
 | Val (a : A)
@@ -240,25 +237,33 @@ Definition is_char_boundary (s : bytes) (i : nat) : bool :=
       end
   end.
 
-Definition is_quote (b : N) : bool := (b =? 96) || (b =? 34).    (* backtick or double quote *)
-
-Definition starts_with_quote (s : bytes) : bool :=
+Fixpoint last_byte (s : bytes) : option N :=
   match s with
-  | b :: _ => is_quote b
-  | [] => false
+  | [] => None
+  | [b] => Some b
+  | _ :: r => last_byte r
   end.
 
-(* fn strip_quotes(ident: &str) -> String {
-     if ident.starts_with(BACKTICK) || ident.starts_with(DOUBLE_QUOTE) { ident[1..ident.len() - 1].to_string() }
-     else { ident.to_string() } }
-   The range index panics when 1 > len-1 or when either end is not a char boundary. *)
+(* does the text start and end with the quote character q, and is it at least two bytes long *)
+Definition quoted_by (q : N) (s : bytes) : bool :=
+  Nat.leb 2 (length s)
+  && match s with b :: _ => b =? q | [] => false end
+  && match last_byte s with Some b => b =? q | None => false end.
+
+(* fn strip_quotes(ident: &str) -> String {            (after fix 7f4db9b)
+     for quote in [BACKTICK, DOUBLE_QUOTE] {
+         if ident.len() >= 2 && ident.starts_with(quote) && ident.ends_with(quote) {
+             return ident[1..ident.len() - 1].to_string();
+         }
+     }
+     ident.to_string() }
+   The range index still checks both ends for being char boundaries. *)
 Definition strip_quotes (s : bytes) : result bytes :=
-  if starts_with_quote s then
+  if quoted_by 96 s || quoted_by 34 s then
     let n := length s in
-    if Nat.ltb n 2 then Panic PSStripRange
-    else if is_char_boundary s 1 && is_char_boundary s (n - 1)
-         then Val (firstn (n - 2) (skipn 1 s))
-         else Panic PSStripBoundary
+    if is_char_boundary s 1 && is_char_boundary s (n - 1)
+    then Val (firstn (n - 2) (skipn 1 s))
+    else Panic PSStripBoundary
   else Val s.
 
 (* ------------------------------------------------------------------------------------------- *)
@@ -338,7 +343,7 @@ Fixpoint convert_expr (e : expr) : result nexpr :=
       do a <- convert_expr x;
       Val (Func1 f a)
   | EValue v => do c <- get_raw_val v; Val (Const c)
-  | EIdent v => do n <- strip_quotes v; Val (ColName n)
+  | EIdent v => Val (ColName v)      (* sqlparser has already removed the quotes *)
   | ENested x => convert_expr x
   | EFunction name args =>
       let one (mk : nexpr -> nexpr) : result nexpr :=
@@ -472,7 +477,7 @@ Definition get_limit (l : option expr) : result N :=
   | Some (EValue (VNumber text _)) =>
       match parse_u64 text with
       | Some v => Val v
-      | None => Panic PSLimitUnwrap
+      | None => Err ParseError       (* "Invalid LIMIT: expected an unsigned integer" *)
       end
   | None => Val u64_max
   | Some _ => Err NotImplemented
@@ -484,7 +489,7 @@ Definition get_offset (o : option expr) : result N :=
   | Some (EValue (VNumber text _)) =>
       match parse_u64 text with
       | Some v => Val v
-      | None => Panic PSOffsetUnwrap
+      | None => Err ParseError       (* "Invalid OFFSET: expected an unsigned integer" *)
       end
   | Some _ => Err ParseError
   end.
@@ -497,7 +502,7 @@ Definition parse_query (p : parsed) : result query :=
       if Nat.ltb 1 (length stmts) then Err ParseError
       else
         match stmts with
-        | [] => Panic PSPopUnwrap
+        | [] => Err ParseError       (* "Empty query." *)
         | StOther :: _ => Err ParseError
         | StQuery b ob lc :: _ =>
             do c <- get_query_components b ob lc;
@@ -680,17 +685,11 @@ Definition parse_and_normalize (p : parsed) :=
 (* the output slice of convert_to_output_format                                                 *)
 (* ------------------------------------------------------------------------------------------- *)
 
-Inductive slice_outcome :=
-| Slice (offset count : N)
-| SlicePanic.            (* full_result.len() - offset underflows (usize subtraction) *)
+(* let offset = cmp::min(lo.offset, full_result.len());            (after fix 0df51a0)
+   let count = cmp::min(limit, full_result.len() - offset);
+   returns (offset, count): the rows [offset, offset + count) of the result *)
+Definition output_slice (limit offset len : N) : N * N :=
+  let o := N.min offset len in (o, N.min limit (len - o)).
 
-(* let count = cmp::min(limit, full_result.len() - offset) *)
-Definition output_slice (limit offset len : N) : slice_outcome :=
-  if len <? offset then SlicePanic else Slice offset (N.min limit (len - offset)).
-
-(* (limit + offset) as usize in NormalFormQuery::run and QueryTask::combined_limit; `checked` is the
-   build profile (overflow checks on: the addition panics; off: it wraps) *)
-Inductive sum_outcome := Sum (v : N) | SumPanic.
-Definition combined_limit (checked : bool) (limit offset : N) : sum_outcome :=
-  if u64_max <? limit + offset then (if checked then SumPanic else Sum ((limit + offset) mod (u64_max + 1)))
-  else Sum (limit + offset).
+(* limit.saturating_add(offset) in NormalFormQuery::run and QueryTask::combined_limit *)
+Definition combined_limit (limit offset : N) : N := N.min (limit + offset) u64_max.
